@@ -152,25 +152,32 @@ def readInt (lo hi : Int) (signed : Bool) (data : List UInt8) : Option (Int × N
     if (neg && !signed) || v < lo || v > hi then none else some (v, data.length - rest.length)
   | none => none
 
-/-- exact value of a number literal: `(neg, mantissa digits as a natural number, decimal exponent)` -/
-def numberValue (lit : List UInt8) : Bool × Nat × Int :=
-  let (neg, l) := match lit with
-    | 45 :: t => (true, t)
-    | l => (false, l)
+/-- digits of the exponent with its sign (`t` = what follows the `e`) -/
+def expSigned : List UInt8 → Int
+  | 43 :: t' => (digitsVal (takeDigits t') 0 : Int)
+  | 45 :: t' => -1 * (digitsVal (takeDigits t') 0 : Int)
+  | t => (digitsVal (takeDigits t) 0 : Int)
+
+/-- value of the exponent part (`l` = what follows the mantissa: nothing, or `e`/`E` …) -/
+def expValue : List UInt8 → Int
+  | _ :: t => expSigned t
+  | [] => 0
+
+/-- fraction digits and what follows them (`l` = what follows the integer digits) -/
+def fracSplit : List UInt8 → List UInt8 × List UInt8
+  | 46 :: t => (takeDigits t, t.drop (takeDigits t).length)
+  | l => ([], l)
+
+/-- unsigned part of a number literal: `(mantissa digits as a natural number, decimal exponent)` -/
+def numberValue1 (l : List UInt8) : Nat × Int :=
   let ip := takeDigits l
-  let l := l.drop ip.length
-  let (fp, l) := match l with
-    | 46 :: t => let f := takeDigits t; (f, t.drop f.length)
-    | l => ([], l)
-  let e : Int := match l with
-    | _ :: t =>
-      let (sg, t) : Int × List UInt8 := match t with
-        | 43 :: t' => (1, t')
-        | 45 :: t' => (-1, t')
-        | t => (1, t)
-      sg * (digitsVal (takeDigits t) 0 : Int)
-    | [] => 0
-  (neg, digitsVal (ip ++ fp) 0, e - fp.length)
+  let fr := fracSplit (l.drop ip.length)
+  (digitsVal (ip ++ fr.1) 0, expValue fr.2 - fr.1.length)
+
+/-- exact value of a number literal: `(neg, mantissa digits as a natural number, decimal exponent)` -/
+def numberValue : List UInt8 → Bool × Nat × Int
+  | 45 :: t => (true, numberValue1 t)
+  | l => (false, numberValue1 l)
 
 /-- number token after optional whitespace: correctly rounded binary64 bits, end offset; `none` on malformed or overflow -/
 def readFloat (data : List UInt8) : Option (Nat × Nat) :=
